@@ -23,6 +23,13 @@ pub struct C14Case {
     /// the -o file exists already and is longer than the new report
     #[serde(default)]
     pub prefill_output: bool,
+    /// a sub-directory of the first root is given as an additional root *before* it (nested roots:
+    /// a path belongs to the first root in argument order that contains it)
+    #[serde(default)]
+    pub nested_root: bool,
+    /// the -o run happens with stdout on a terminal (through `script`): the file must still be a plain report
+    #[serde(default)]
+    pub tty: bool,
 }
 
 fn case_strategy() -> BoxedStrategy<C14Case> {
@@ -39,12 +46,12 @@ fn case_strategy() -> BoxedStrategy<C14Case> {
             p.near_dup_pairs = 0;
             p.classes = 2;
             let op = OptProfile { transform_w: 0.15, cache_w: 0.05, links: true, isolate: true, rf: true, max_roots: roots };
-            (tree_strategy(&p), gopts_strategy(op), 0u8..3, any::<bool>()).prop_map(move |(tree, mut opts, root_rot, prefill_output)| {
+            (tree_strategy(&p), gopts_strategy(op), 0u8..3, any::<bool>(), prop::bool::weighted(0.3), prop::bool::weighted(0.25)).prop_map(move |(tree, mut opts, root_rot, prefill_output, nested_root, tty)| {
                 opts.max_prefix = None;
                 opts.max_suffix = None;
                 opts.threads = vec![];
                 opts.fix_isolate(roots);
-                C14Case { tree, roots, opts, root_rot, prefill_output }
+                C14Case { tree, roots, opts, root_rot, prefill_output, nested_root, tty }
             })
         })
         .boxed()
@@ -92,6 +99,42 @@ pub fn run_case(c: &C14Case, n: u64) -> Verdict {
     roots.rotate_left(rot);
     if rot == 1 && roots.len() == 3 {
         roots.swap(1, 2); // r0x r0 r1 -> not a rotation of the sorted order
+    }
+    if c.nested_root {
+        // first sub-directory of r0 (if any) in front of everything else
+        if let Some(sub) = std::fs::read_dir(tree.join(ROOT_NAMES[0])).ok().and_then(|rd| {
+            let mut d: Vec<_> = rd.filter_map(|e| e.ok()).filter(|e| e.file_type().map(|t| t.is_dir()).unwrap_or(false)).map(|e| e.file_name()).collect();
+            d.sort();
+            d.into_iter().next()
+        }) {
+            let mut inner = OsString::from(ROOT_NAMES[0]);
+            inner.push("/");
+            inner.push(&sub);
+            roots.insert(0, inner);
+        }
+    }
+    // two more copies of the first regular file of r0, under names that differ only in bytes that are
+    // not valid UTF-8 (their order in the report must not depend on which inode carries which name)
+    let mut inv_pair: Option<(PathBuf, PathBuf)> = None;
+    {
+        use std::os::unix::ffi::OsStringExt;
+        let r0 = tree.join(ROOT_NAMES[0]);
+        let first = std::fs::read_dir(&r0).ok().and_then(|rd| {
+            let mut f: Vec<_> = rd.filter_map(|e| e.ok()).filter(|e| e.file_type().map(|t| t.is_file()).unwrap_or(false)).map(|e| e.path()).collect();
+            f.sort();
+            f.into_iter().find(|p| std::fs::metadata(p).map(|m| m.len() > 0).unwrap_or(false))
+        });
+        if let Some(src) = first {
+            if let Ok(bytes) = std::fs::read(&src) {
+                let a = r0.join(OsString::from_vec(b"inv-\x80.raw".to_vec()));
+                let b = r0.join(OsString::from_vec(b"inv-\x81.raw".to_vec()));
+                if std::fs::write(&a, &bytes).is_ok() && std::fs::write(&b, &bytes).is_ok() {
+                    set_times(&a, BASE_TIME + 7, 0, BASE_TIME);
+                    set_times(&b, BASE_TIME + 7, 0, BASE_TIME);
+                    inv_pair = Some((a, b));
+                }
+            }
+        }
     }
     let mut sig: Vec<String> = vec![];
     if c.opts.isolate {
@@ -279,6 +322,43 @@ pub fn run_case(c: &C14Case, n: u64) -> Verdict {
         return mk_fail("output-file-differs", &of.cmdline, "report also written to stdout".into(), &sig);
     }
 
+    // (9) the listing depends only on the set of paths: swap the inodes behind the two names that
+    // differ only in invalid UTF-8 bytes (contents and path set unchanged) and run again
+    if let Some((a, b)) = &inv_pair {
+        let tmp = a.with_file_name("inv-swap.tmp");
+        if std::fs::rename(a, &tmp).is_ok() && std::fs::rename(b, a).is_ok() && std::fs::rename(&tmp, b).is_ok() {
+            let again = run_fmt("default", &[]);
+            if again.out.ok() && text_body(&again.out.stdout) != text_body(&text.out.stdout) {
+                return mk_fail(
+                    "listing-depends-on-more-than-the-path-set",
+                    &again.cmdline,
+                    format!("after swapping the inodes behind {:?} and {:?} (same paths, same bytes) the report body changed\nbefore:\n{}\nafter:\n{}", a, b, show(), String::from_utf8_lossy(&again.out.stdout).lines().take(40).collect::<Vec<_>>().join("\n")),
+                    &sig,
+                );
+            }
+        }
+    }
+    // (10) -o FILE with stdout on a terminal: the file is still a plain report
+    if c.tty && std::path::Path::new("/usr/bin/script").exists() {
+        let outfile = cd.out().join("report.tty.txt");
+        let mut inner = Run::fclones(&cd).arg("group").args(c.opts.args()).arg("-o").arg(&outfile).args(&roots);
+        let words: Vec<String> = std::iter::once(FCLONES_BIN.to_string()).chain(inner.args.iter().map(|a| fclones::verif::quote(a.clone()))).collect();
+        inner.program = OsString::from("/usr/bin/script");
+        inner.args = vec!["-qec".into(), words.join(" ").into(), "/dev/null".into()];
+        if let Some(d) = c.opts.disk_env() {
+            inner = inner.env("FCLONES_VERIF_DISK_KIND", d);
+        }
+        let o = inner.env("TERM", "xterm").run();
+        let written = std::fs::read(&outfile).unwrap_or_default();
+        if !o.timed_out && (parse_text(&written).is_err() || text_body(&written) != text_body(&text.out.stdout)) {
+            return mk_fail(
+                "output-file-differs-on-a-terminal",
+                &format!("script -qec '{}' /dev/null", words.join(" ")),
+                format!("file:\n{}\nexpected body:\n{}", String::from_utf8_lossy(&written).chars().take(800).collect::<String>(), show()),
+                &sig,
+            );
+        }
+    }
     let lens: BTreeMap<u64, usize> = rep.groups.iter().fold(BTreeMap::new(), |mut m, g| {
         *m.entry(g.len).or_insert(0) += 1;
         m
@@ -299,7 +379,7 @@ pub fn check(tier: Tier) -> i32 {
     cleanup_process_scratch();
     ctx.finish(
         "exploration",
-        "proptest-generated trees (hostile file names, hard-link sets, 1-3 roots) x configurations (--isolate, -H, -S, transform, --unique, --rf-under, --rf-over); each case runs group in text, JSON, CSV, fdupes and with -o; oracle: header totals == body, per-group count == listed paths, redundant/missing recomputed from the listed groups by the reference sub-grouping (isolate roots in order, else file id, else singletons; first max(rf,1) sub-groups retained), decreasing sizes, absolute paths, isolate roots contiguous in argument order, all formats decode (harness parsers) to the same groups in the same order, -o file == stdout (in half of the cases the -o file exists already and holds a longer, older report). Roots are given in sorted and in non-sorted order. Non-trivial = >=2 groups of different length and a group containing a hard-link set or spanning >=2 isolate roots.",
+        "proptest-generated trees (hostile file names, hard-link sets, 1-3 roots) x configurations (--isolate, -H, -S, transform, --unique, --rf-under, --rf-over); each case runs group in text, JSON, CSV, fdupes and with -o; oracle: header totals == body, per-group count == listed paths, redundant/missing recomputed from the listed groups by the reference sub-grouping (isolate roots in order, else file id, else singletons; first max(rf,1) sub-groups retained), decreasing sizes, absolute paths, isolate roots contiguous in argument order, all formats decode (harness parsers) to the same groups in the same order, -o file == stdout (in half of the cases the -o file exists already and holds a longer, older report). Roots are given in sorted and in non-sorted order, in 30 % of the cases with a sub-directory of the first root as an additional root in front of it (nested roots). Two extra copies whose names differ only in invalid UTF-8 bytes are added; after swapping the inodes behind those two names the body must be unchanged. In a quarter of the cases the -o run is repeated with stdout on a pseudo-terminal (util-linux `script`): the file must still be the plain report. Non-trivial = >=2 groups of different length and a group containing a hard-link set or spanning >=2 isolate roots.",
         &["harness parsers implement the documented writer format (4-space indent, STFU-8 escapes, RFC 4180 CSV)"],
     )
 }
